@@ -58,7 +58,8 @@ def extraction(prog, run, first_order=True, with_handover=True, only_methods=Non
             consts = {p_order: oval}
             pf = astq.PrunedFn(fi, consts)
             pm = astq.parent_map(pf.node)
-            explicit_branch(prog, run, fi, pf, pm, f, cfg, label, p_freq, p_order, tF, kinds, tables, has_cov)
+            if not explicit_branch_lam(prog, run, fi, pf, f, cfg, label, oval, p_freq, p_order, tF, kinds, tables, has_cov):
+                explicit_branch(prog, run, fi, pf, pm, f, cfg, label, p_freq, p_order, tF, kinds, tables, has_cov)
         if qual.endswith("SSI_mpe") and first_order:
             find_min(prog, run, fi, f, p_freq, p_order, tF, kinds, tables)
     if with_handover:
@@ -84,6 +85,128 @@ def _row_is_nearest(prog, pf, row, tF, col, freqvar, tables):
                 and isinstance(b, ast.Name) and b.id == freqvar:
             return True, f"nanargmin|{tF}[:, {astq.src(col, 30)}] - {freqvar}|"
     return False, f"`{astq.src(row, 80)}` is not the distance of the order's frequency column to the requested frequency"
+
+
+def _lam_run(prog, fi, p_freq, p_order, tables, oval):
+    from .. import lamdom
+    pos, kwo, _, _ = astq.params_of(fi.node)
+    ranks = {p_: 0 for p_ in pos + kwo}
+    ranks[p_freq] = 1
+    for t in tables:
+        ranks[t] = 3 if "Phi" in t else 2
+    if "Lab" in ranks:
+        ranks["Lab"] = 2
+    if isinstance(oval, list):
+        ranks[p_order] = 1
+    try:
+        return lamdom.Interp(prog, fi, ranks=ranks, consts={p_order: oval}).run()
+    except Exception:
+        return None
+
+
+def explicit_branch_lam(prog, run, fi, pf, f, cfg, label, oval, p_freq, p_order, tF, kinds, tables, has_cov):
+    """the rules of the explicit-order branch on the index-level model of the function (sa/lamdom.py): every appended value as a scalar
+    expression T[row, col] in the request index, with the conditions under which it is appended - for loops, batched searches, closures
+    and helpers alike.  Returns False (nothing reported) when the model does not reach the appends with known values."""
+    from .. import lamdom
+    it = _lam_run(prog, fi, p_freq, p_order, tables, oval)
+    if it is None:
+        return False
+    items = []
+    for ap in it.appends:
+        v = ap["value"]
+        if not isinstance(v, lamdom.Lam):
+            continue
+        acc = astq.access_path(v.body, tables)
+        if acc is None or acc.col is None:
+            continue
+        items.append((ap, acc))
+    if len(items) < 3 or any(not ap["loops"] or ap["loops"][-1][0] is None for ap, acc in items):
+        return False
+    loopvars = {ap["loops"][-1][0] for ap, acc in items}
+    if len(loopvars) != 1:
+        return False
+    lv = next(iter(loopvars))
+    loop_node = items[0][0]["loops"][-1][2]
+
+    def is_req(e):
+        """the loop's own requested frequency: freq[loop index]"""
+        return isinstance(e, ast.Subscript) and isinstance(e.value, ast.Name) and e.value.id == p_freq and isinstance(e.slice, ast.Name) and e.slice.id == lv
+    uses_req = any(is_req(x) for ap, acc in items for c, pol in ap["path"] for x in ast.walk(c)) or any(is_req(x) for ap, acc in items for x in ast.walk(ap["value"].body))
+    run.ob("R-same-pole", fi.qual, "loop runs over the requested frequencies", uses_req, f"values appended per element of `{p_freq}`" if uses_req else f"the appended values do not depend on an element of `{p_freq}`",
+           astq.src(loop_node.iter, 50), file=f, node=loop_node, config=cfg)
+    if label == "int":
+        def col_ok(c):
+            return isinstance(c, ast.Name) and c.id == p_order
+        colname = p_order
+    else:
+        def col_ok(c):
+            return isinstance(c, ast.Subscript) and isinstance(c.value, ast.Name) and c.value.id == p_order and isinstance(c.slice, ast.Name) and c.slice.id == lv
+        colname = f"{p_order}[{lv}]"
+
+    def row_nearest(row, col):
+        arr = astq.argreduce(prog, pf, row, {"numpy.nanargmin"})
+        if arr is None:
+            return False, "not a nanargmin"
+        inner = astq.strip_abs(prog, pf, arr)
+        if not (isinstance(inner, ast.BinOp) and isinstance(inner.op, ast.Sub)):
+            return False, "argument is not |a - b|"
+        for a, b in ((inner.left, inner.right), (inner.right, inner.left)):
+            ac = astq.access_path(a, tables)
+            if ac is not None and ac.table == tF and ac.row is None and ac.col is not None and astq.dump(ac.col) == astq.dump(col) and is_req(b):
+                return True, f"nanargmin|{tF}[:, {astq.src(col, 30)}] - {p_freq}[{lv}]|"
+        return False, f"`{astq.src(row, 80)}` is not the distance of the order's frequency column to the requested frequency"
+    seen_tables = {}
+    ref = items[0][1]
+    for ap, acc in items:
+        node = ap["site"] if ap["site"] is not None else ap["node"]
+        role = f"{kinds.get(acc.table, acc.table)} value"
+        okc = col_ok(acc.col)
+        run.ob("R-same-pole", fi.qual, f"{role}: column is the requested order", okc, f"{acc!r}; expected column {colname}", astq.src(acc.col, 40), file=f, node=node, config=cfg)
+        okr, why = (False, "no row")
+        if acc.row is not None:
+            okr, why = row_nearest(acc.row, acc.col)
+        run.ob("R-same-pole", fi.qual, f"{role}: row is the pole nearest to the requested frequency in that column", okr, why, why[:80], file=f, node=node, config=cfg)
+        same = acc.row is not None and ref.row is not None and astq.dump(acc.row) == astq.dump(ref.row) and astq.dump(acc.col) == astq.dump(ref.col)
+        run.ob("R-same-pole", fi.qual, f"{role}: same (row, column) as the other values of this mode", same, "identical index pair" if same else f"{acc!r} vs {ref!r}", f"{acc!r}"[:90], file=f, node=node, config=cfg)
+        seen_tables.setdefault(ap["list"], set()).add(acc.table)
+    # the closeness test: a premise of EVERY append
+    CLOSE = ("numpy.isclose", "numpy.allclose", "math.isclose")
+
+    def close_calls(c):
+        return [x for x in ast.walk(c) if isinstance(x, ast.Call) and astq.callee_name(prog, pf, x) in CLOSE]
+    guards = []
+    for ap, acc in items:
+        g = [(c, pol) for c, pol in ap["path"] if close_calls(c)]
+        guards.append(g)
+    node0 = items[0][0]["site"] if items[0][0]["site"] is not None else items[0][0]["node"]
+    if any(not g for g in guards):
+        run.ob("R-guarded-append", fi.qual, "closeness test", False, "appends are not under any closeness test (isclose) - a far-away pole would be returned", "unguarded", file=f, node=loop_node, config=cfg)
+        return True
+    allpos = all(pol for g in guards for c, pol in g)
+    same_guard = len({astq.dump(c) for g in guards for c, pol in g}) == 1
+    c0, pol0 = guards[0][0]
+    run.ob("R-guarded-append", fi.qual, "appends in the success branch of the closeness test", allpos and same_guard,
+           f"test `{astq.src(c0, 60)}` holds on the path of every append" if allpos and same_guard else f"test `{astq.src(c0, 60)}`: appends run when it " + ("FAILS" if not allpos else "differs between the values"),
+           "misplaced", file=f, node=node0, config=cfg)
+    iscl = close_calls(c0)[0]
+    a0, b0 = iscl.args[0], iscl.args[1]
+    acc0 = astq.access_path(a0, tables)
+    okA = acc0 is not None and acc0.table == tF and _same(acc0.row, ref.row) and _same(acc0.col, ref.col)
+    okB = is_req(b0)
+    if not okB and acc0 is None:
+        acc1 = astq.access_path(b0, tables)
+        okA = acc1 is not None and acc1.table == tF and _same(acc1.row, ref.row)
+        okB = is_req(a0)
+    run.ob("R-own-freq", fi.qual, "tested pole is the one that is appended", okA, f"isclose first argument `{astq.src(a0, 60)}`", astq.src(a0, 60), file=f, node=node0, config=cfg)
+    run.ob("R-own-freq", fi.qual, "reference of the closeness test is the loop's own requested frequency", okB,
+           f"compared with `{astq.src(b0, 40)}`" + ("" if okB else f" instead of the loop's own element of `{p_freq}`: a pole near ANOTHER requested frequency passes the test"),
+           astq.src(b0, 40), file=f, node=node0, config=cfg)
+    rt = astq.kwarg(iscl, "rtol", 2)
+    run.ob("R-own-freq", fi.qual, "relative tolerance is the rtol parameter", isinstance(rt, ast.Name) and rt.id == "rtol", f"rtol={astq.src(rt) if rt is not None else 'default'}",
+           astq.src(rt) if rt is not None else "default", file=f, node=node0, config=cfg)
+    slots(prog, run, fi, pf, f, cfg, seen_tables, kinds)
+    return True
 
 
 def explicit_branch(prog, run, fi, pf, pm, f, cfg, label, p_freq, p_order, tF, kinds, tables, has_cov):
@@ -255,16 +378,39 @@ def find_min(prog, run, fi, f, p_freq, p_order, tF, kinds, tables):
         if acc is not None and acc.col is not None:
             items.append((a, acc))
     if not items:
+        # the values may be appended inside a closure / helper, or through a batched search: take them from the index-level model
+        from .. import lamdom
+        it = _lam_run(prog, pf, p_freq, p_order, tables, "find_min")
+        for ap in (it.appends if it is not None else []):
+            v = ap["value"]
+            acc = astq.access_path(v.body, tables) if isinstance(v, lamdom.Lam) else None
+            if acc is not None and acc.col is not None and ap["site"] is not None and ap["site"] in pm:
+                items.append((ap["site"], acc))
+    if not items:
         run.ob("R-first-order", fi.qual, "appends", None, "no table reads in the find_min branch", file=f, config=cfg)
         return
-    scan = None
+    def find_scan(items_):
+        n_ = astq.enclosing(pm, items_[0][0], (ast.For,))
+        while n_ is not None:
+            if symidx.is_range(prog, pf, n_.iter) is not None:
+                return n_
+            n_ = astq.enclosing(pm, n_, (ast.For,))
+        return None
+    scan = find_scan(items)
+    if scan is None:
+        # appends written inside a nested helper: use the call sites and the lowered values of the index-level model instead
+        from .. import lamdom
+        it = _lam_run(prog, pf, p_freq, p_order, tables, "find_min")
+        items2 = []
+        for ap in (it.appends if it is not None else []):
+            v = ap["value"]
+            acc = astq.access_path(v.body, tables) if isinstance(v, lamdom.Lam) else None
+            if acc is not None and acc.col is not None and ap["site"] is not None and ap["site"] in pm:
+                items2.append((ap["site"], acc))
+        if items2 and find_scan(items2) is not None:
+            items = items2
+            scan = find_scan(items)
     a0 = items[0][0]
-    n = astq.enclosing(pm, a0, (ast.For,))
-    while n is not None:
-        if symidx.is_range(prog, pf, n.iter) is not None:
-            scan = n
-            break
-        n = astq.enclosing(pm, n, (ast.For,))
     if scan is None or not isinstance(scan.target, ast.Name):
         run.ob("R-first-order", fi.qual, "scan loop", None, "loop over the order columns not found", file=f, config=cfg)
         return
